@@ -228,6 +228,9 @@ func (Engine) Execute(t *testing.T, cfg simkit.RunConfig, scenario any) *simkit.
 			if gcRep != nil {
 				c.checkC14(sc.GC, gcRep)
 				res.Stats["c14.audited"] = 1
+				if gcRep.MovedChecked {
+					res.Stats["c14.safe-point-learned-during-read."+gcRep.MovedKind] = 1
+				}
 				res.Stats["c14.gc-ok"] = b2i(gcRep.GCErr == "")
 				res.Stats["c14.ranges"] = len(gcRep.Ranges)
 				res.Stats["c14.delete-range-done"] = b2i(gcRep.DelDone && gcRep.DelErr == "")
